@@ -244,17 +244,28 @@ func ReadPatchString(s string) (Diff, error) {
 		return diff, nil
 	}
 	var e DiffElement
+	var c patchContext
+	var contexts []patchContext
 	for {
 		if len(patch) == 0 {
+			// The tests read as context are absolute. Now that the
+			// elements are complete, check that they address the
+			// neighbours of the edits.
+			for i := range diff {
+				if err := checkPatchContext(diff[i], contexts[i]); err != nil {
+					return nil, err
+				}
+			}
 			return diff, nil
 		}
-		e, patch, err = readPatchDiffElement(patch)
+		e, c, patch, err = readPatchDiffElement(patch)
 		if err != nil {
 			return nil, err
 		}
 		// Coalece diff elements on the same path.
 		if len(diff) == 0 {
 			diff = append(diff, e)
+			contexts = append(contexts, c)
 		} else {
 			i := len(diff) - 1
 			if diff[i].Path.JsonNode().Equals(e.Path.JsonNode()) && !hasContext(e) &&
@@ -269,9 +280,51 @@ func ReadPatchString(s string) (Diff, error) {
 				}
 			} else {
 				diff = append(diff, e)
+				contexts = append(contexts, c)
 			}
 		}
 	}
+}
+
+// patchContext holds the test ops which were read as the before and
+// after context of a diff element.
+type patchContext struct {
+	before, after *patchElement
+}
+
+// checkPatchContext reports an error unless the context tests of a
+// diff element address the array elements adjacent to its edit: the
+// one before the index and the one after the removed values.
+func checkPatchContext(e DiffElement, c patchContext) error {
+	if c.before == nil && c.after == nil {
+		return nil
+	}
+	check := func(test *patchElement, offset int) error {
+		p, err := readPointer(test.Path)
+		if err != nil {
+			return err
+		}
+		if test.Op == "test" && len(p) > 0 && len(p) == len(e.Path) {
+			i, ok1 := p[len(p)-1].(PathIndex)
+			j, ok2 := e.Path[len(p)-1].(PathIndex)
+			if ok1 && ok2 && j >= 0 && i == j+PathIndex(offset) &&
+				p[:len(p)-1].JsonNode().Equals(e.Path[:len(p)-1].JsonNode()) {
+				return nil
+			}
+		}
+		return fmt.Errorf("JSON Patch op at %q is not a test adjacent to the edit at %q", test.Path, e.Path.JsonNode().Json())
+	}
+	if c.before != nil {
+		if err := check(c.before, -1); err != nil {
+			return err
+		}
+	}
+	if c.after != nil {
+		if err := check(c.after, len(e.Remove)); err != nil {
+			return err
+		}
+	}
+	return nil
 }
 
 // isAppend reports whether a path addresses the end of an array ("-").
@@ -425,71 +478,82 @@ func setPatchDiffElementContext(patch []patchElement, d *DiffElement) ([]patchEl
 	}
 }
 
-func readPatchDiffElement(patch []patchElement) (DiffElement, []patchElement, error) {
+func readPatchDiffElement(patch []patchElement) (DiffElement, patchContext, []patchElement, error) {
 	d := DiffElement{}
+	c := patchContext{}
 	if len(patch) == 0 {
-		return d, nil, fmt.Errorf("unexpected end of JSON Patch")
+		return d, c, nil, fmt.Errorf("unexpected end of JSON Patch")
 	}
 	p := patch[0]
 	var err error
 	// Maybe read before and after context
 	if p.Op == "test" {
+		all := patch
 		patch, err = setPatchDiffElementContext(patch, &d)
 		if len(patch) == 0 {
-			return d, nil, fmt.Errorf("unexpected end of JSON Patch")
+			return d, c, nil, fmt.Errorf("unexpected end of JSON Patch")
+		}
+		// Remember the ops which were taken as context.
+		switch used := all[:len(all)-len(patch)]; {
+		case len(used) == 2:
+			c.before, c.after = &used[0], &used[1]
+		case len(used) == 1 && len(d.Before) == 1 && !isVoid(d.Before[0]):
+			c.before = &used[0]
+		case len(used) == 1:
+			c.after = &used[0]
 		}
 		p = patch[0]
 	}
 	if err != nil {
-		return d, nil, err
+		return d, c, nil, err
 	}
 	switch p.Op {
 	case "test":
 		// Read path.
 		d.Path, err = readPointer(p.Path)
 		if err != nil {
-			return d, nil, err
+			return d, c, nil, err
 		}
 		// Read value to test and remove.
 		testValue, err := NewJsonNode(p.Value)
 		if err != nil {
-			return d, nil, err
+			return d, c, nil, err
 		}
 		d.Remove = []JsonNode{testValue}
 		// Validate test and remove are paired because jd remove is strict.
 		if len(patch) == 1 || patch[1].Op != "remove" {
-			return d, nil, fmt.Errorf("JSON Patch test op must be followed by a remove op")
+			return d, c, nil, fmt.Errorf("JSON Patch test op must be followed by a remove op")
 		}
 		if patch[1].Path != p.Path {
-			return d, nil, fmt.Errorf("JSON Patch remove op must have the same path as test op")
+			return d, c, nil, fmt.Errorf("JSON Patch remove op must have the same path as test op")
 		}
 		removeValue, err := NewJsonNode(patch[1].Value)
 		if err != nil {
-			return d, nil, err
+			return d, c, nil, err
 		}
 		if !testValue.Equals(removeValue) {
-			return d, nil, fmt.Errorf("JSON Patch remove op must have the same value as test op")
+			return d, c, nil, fmt.Errorf("JSON Patch remove op must have the same value as test op")
 		}
-		return d, patch[2:], nil
+		return d, c, patch[2:], nil
 	case "add":
 		d.Path, err = readPointer(p.Path)
 		if err != nil {
-			return d, nil, err
+			return d, c, nil, err
 		}
 		addValue, err := NewJsonNode(p.Value)
 		if err != nil {
-			return d, nil, err
+			return d, c, nil, err
 		}
 		if isAppend(d.Path) && hasContext(d) {
 			// Context is relative to the edit position but the tests of
 			// a JSON Patch are absolute: an append has no index to
 			// relate them to, so they cannot be honoured.
-			return d, nil, fmt.Errorf("JSON Patch append (-) cannot be combined with context tests")
+			return d, c, nil, fmt.Errorf("JSON Patch append (-) cannot be combined with context tests")
 		}
 		d.Add = []JsonNode{addValue}
-		return d, patch[1:], nil
+		return d, c, patch[1:], nil
 	default:
-		return d, nil, fmt.Errorf("invalid JSON Patch: must be test/remove or add ops")
+		return d, c, nil, fmt.Errorf("invalid JSON Patch: must be test/remove or add ops")
 	}
 }
 
